@@ -401,12 +401,18 @@ def _fn(v):
     return v
 
 
-def core_canon(mods, maxpay):
+KIND_ORDER = ["fd", "tmr", "sgn", "path", "pid", "task", "thr"]
+
+
+def core_canon(mods, maxpay, nkeys=1):
     def evs(ms):
         out = []
         for x in ms:
             out.append("%d/%s/%s/%d/%s" % (x["p"], x["from"], x["topic"], 1 if x["sys"] else 0, x["ud"]))
         return ";".join(out) if out else "_"
+
+    def setof(v):
+        return v["__set__"] if isinstance(v, dict) and "__set__" in v else v
 
     def canon(st):
         S = st["S"]
@@ -423,6 +429,19 @@ def core_canon(mods, maxpay):
                 parts.append("%s:%s:0:0:0:0:0" % (m, x["st"]))
             else:
                 parts.append("%s:%s:%d:%d:%d:%d:%d" % (m, x["st"], len(x["pipe"]), len(x["bq"]), len(x["stash"]), len(x["hs"]), x["blen"]))
+        srcs = []
+        for m in mods:
+            x = mod[m]
+            if x["st"] in ("none", "zombie"):
+                srcs.append("-")
+                continue
+            ss = setof(x["src"])
+            counts = [len(setof(x["subs"]))] + [sum(1 for q in ss if q["k"] == k) for k in KIND_ORDER]
+            srcs.append(".".join(str(c) for c in counts + [sum(counts)]))
+        parts.append("src:" + ",".join(srcs))
+        ufd = S["ufd"]
+        ufd = ufd if isinstance(ufd, list) else [_fn(ufd)[k] for k in sorted(_fn(ufd))]
+        parts.append("ufd:" + "".join("c" if ufd[i] == "closed" else "o" for i in range(nkeys)))
         pay = S["pay"]
         pay = pay if isinstance(pay, list) else [_fn(pay)[k] for k in sorted(_fn(pay))]
         parts.append("pay:" + "".join({"unused": "u", "live": "l", "freed": "f"}[x["st"]] for x in pay))
@@ -435,11 +454,28 @@ def core_canon(mods, maxpay):
             parts.append("cb:%s:%s:%s" % (f["m"], kind, evs(f["ev"])))
         else:
             parts.append("-")
-        return str(S["ret"]), "|".join(parts)
+        # Ready(): what the poll must report in this state
+        rdy = ""
+        due = setof(S["due"])
+        rd = setof(S["rdy"])
+        for m in mods:
+            x = mod[m]
+            if x["st"] != "running":
+                continue
+            if len(x["pipe"]) > 0:
+                rdy += "%sp0," % m
+            ss = setof(x["src"])
+            for key in range(1, 4):
+                if key in rd and any(q["k"] == "fd" and q["key"] == key for q in ss):
+                    rdy += "%sf%d," % (m, key)
+            for key in range(1, 4):
+                if any(q["k"] == "tmr" and q["key"] == key for q in ss) and any(d[0] == m and d[1] == key for d in due):
+                    rdy += "%st%d," % (m, key)
+        return "%s;%s" % (S["ret"], rdy), "|".join(parts)
     return canon
 
 
-CORE_WRAPS = ["-Wl,--wrap=epoll_wait,--wrap=write,--wrap=pipe,--wrap=close,--wrap=epoll_create1"]
+CORE_WRAPS = ["-Wl,--wrap=epoll_wait,--wrap=write,--wrap=pipe,--wrap=close,--wrap=epoll_create1,--wrap=timerfd_create,--wrap=timerfd_settime"]
 
 
 def build_core():
@@ -449,8 +485,12 @@ def build_core():
 def core_run(R, exe, cfg, mods, env, D, budget, walks, L, seed, maxpay=1, workers=4, timeout=2400):
     tag = cfg.replace(".cfg", "")
     e = {"VP_MODS": ",".join(mods), "VP_MAXPAY": str(maxpay), "GW_FORK": "1", "GW_COVER_TAIL": "3"}
+    if R.tier == "quick":
+        e["GW_COVER_MAX"] = "25000"
+        R.exhaustive = False
     e.update(env)
-    return e1e2(R, "CoreMC.tla", cfg, tag, core_canon(mods, maxpay), exe, e, D, budget, walks, L, seed, workers=workers, timeout=timeout)
+    nkeys = int(e.get("VP_NKEYS", "1"))
+    return e1e2(R, "CoreMC.tla", cfg, tag, core_canon(mods, maxpay, nkeys), exe, e, D, budget, walks, L, seed, workers=workers, timeout=timeout)
 
 
 CORE_CFGS = {
@@ -466,6 +506,9 @@ CORE_CFGS = {
     "sysmq": (["A", "B"], {"VP_CAP": "2", "VP_CTXPERSIST": "1", "VP_SETUP": "loop2"}),
     "sysm": (["A", "B"], {"VP_CAP": "2", "VP_CTXPERSIST": "1", "VP_SETUP": "loop2"}),
     "sysc": (["A", "B"], {"VP_CAP": "3", "VP_CTXPERSIST": "1"}),
+    "srca": (["A"], {"VP_CAP": "2", "VP_CTXPERSIST": "1", "VP_NKEYS": "2"}),
+    "srcb": (["A"], {"VP_CAP": "2", "VP_CTXPERSIST": "1", "VP_NKEYS": "2"}),
+    "fdev": (["A", "B"], {"VP_CAP": "2", "VP_CTXPERSIST": "1", "VP_SETUP": "loop2", "VP_NKEYS": "1"}),
     "bc2": (["A", "B"], {"VP_CAP": "2", "VP_CTXPERSIST": "1", "VP_SETUP": "loop2", "VP_MAXPAY": "3"}),
     "batch": (["A", "B"], {"VP_CAP": "3", "VP_CTXPERSIST": "1", "VP_SETUP": "loop2", "VP_MAXPAY": "2"}),
     "stash": (["A", "B"], {"VP_CAP": "2", "VP_CTXPERSIST": "1", "VP_SETUP": "loop2", "VP_MAXPAY": "2"}),
@@ -473,7 +516,7 @@ CORE_CFGS = {
 }
 
 
-def core_check(prop, tier, seed, quick_cfgs, thorough_cfgs, rule, Dq=5, Dt=7, budget_q=120000, budget_t=4000000):
+def core_check(prop, tier, seed, quick_cfgs, thorough_cfgs, rule, Dq=5, Dt=7, budget_q=60000, budget_t=4000000):
     R = Result(prop, tier, seed)
     exe = build_core()
     quick = tier == "quick"
@@ -549,3 +592,21 @@ def c16(prop, tier, seed):
 def c17(prop, tier, seed):
     return core_check(prop, tier, seed, ["become"], ["become", "stash"],
                       "Focus: handler stack changed from outside and inside handlers; which handler receives each invocation.", Dq=7, Dt=9)
+
+
+@check("C09")
+def c09(prop, tier, seed):
+    return core_check(prop, tier, seed, ["srca", "srcb"], ["srca", "srcb", "fdev"],
+                      "Focus: per-kind keyed sets (descriptor, timer, signal, path, pid, threshold, subscription): EEXIST on a present key, removal of exactly the named key, per-kind and total counts through m_mod_src_len, survival across pause/resume, dropped at stop.", Dq=6, Dt=8)
+
+
+@check("C03")
+def c03(prop, tier, seed):
+    return core_check(prop, tier, seed, ["fdev", "ps2q"], ["fdev", "ps2q", "ps3", "pub2"],
+                      "Focus: events of descriptor / timer / pubsub sources reach their owner with the registration userdata only while RUNNING; one-shot removal; poll batches of several sources in every order; errno left behind by callbacks; loop ends only on quit / no running module.", Dq=5, Dt=7)
+
+
+@check("C20")
+def c20(prop, tier, seed):
+    return core_check(prop, tier, seed, ["fdev", "srca"], ["fdev", "srca", "life"],
+                      "Focus: descriptor ledger: library descriptors (poll handle, pipes, timer descriptors) all closed in clean states, user descriptors closed only through auto-close and exactly once.", Dq=5, Dt=7)
